@@ -103,6 +103,25 @@ def main():
             judged('no-legacy-random', not rw.legacy,
                 f'{what}: numpy.random legacy functions called from teneva: '
                 f'{rw.legacy}')
+        # the same call on the very argument objects of the first call (the
+        # caller kept them; before the first result is touched, which may
+        # legitimately be one of the arguments): a routine that handed a view of an argument to a
+        # destructive LAPACK driver, or left a marker on it, answers
+        # differently the second time although each single call is right
+        if call.inplace is None and not call.private and not isinstance(
+                kwargs.get('seed'), np.random.Generator):
+            k3 = dict(kwargs)
+            if 'info' in k3:
+                k3['info'] = {}
+            if k3.get('cache') is not None:
+                k3['cache'] = {}
+            try:
+                r3 = ('ok', sanit.canon_hash(call.execute(teneva, args, k3)))
+            except Exception as ex:
+                r3 = ('exc', type(ex).__name__)
+            judged('same-objects-again', r3 == ('ok', rec['hash']),
+                f'{what}: the call repeated on the same argument objects '
+                f'gave {r3[0]} {"another result" if r3[0] == "ok" else r3[1]}')
         # same call again: bit-identical - after the caller has used the first
         # result the way callers do (shuffled / shifted it IN PLACE): a result
         # handed out from a memo would come back edited
